@@ -21,8 +21,8 @@ C19 — A configuration that loads is safe to run; one that is invalid is reject
     summary options of the defaults and of every mapping (`validateBuckets`, `validateSummaryOptions`), every
     accepted configuration is `ConfigSafe` (`accepted_config_safe`) — under the hypotheses collected in the
     structure `LoaderAssumptions` (SE/Proofs/SafetyLoaded.lean; hypotheses, not axioms): the IEEE fact that a
-    rank in [0, 1] never makes `Query` index out of range (`ObjectiveLaw`), and the `uint32` typing of
-    `age_buckets`. Hence a loaded configuration never panics (`loaded_config_never_panics`). The four
+    rank in [0, 1] never makes `Query` index out of range (`ObjectiveLaw`) - nothing else since the repair 2eac18a
+    (before it also the `uint32` typing of `age_buckets`). Hence a loaded configuration never panics (`loaded_config_never_panics`). The four
     configurations that the old loader accepted and that killed the exporter goroutine (unsorted buckets,
     negative `max_age`, a `max_age` too small for the age buckets, an objective outside [0, 1]) are now
     rejected (`now_rejects_…`), as is every configuration of these four kinds (`rejects_unsorted_buckets`,
@@ -526,8 +526,8 @@ variable {V : Type} [NumOps V]
     hypotheses, SE/Proofs/SafetyLoaded.lean) asks for
     * `objectiveLaw : ObjectiveLaw V` — for every rank `q` with `q ≥ 0` and `q ≤ 1` and every sample count `l`,
       `queryPanics l q = false` (IEEE: `ceil(l·q) ∈ [0, l]`);
-    * `defaultsAgeBuckets`, `rulesAgeBuckets` — the `age_buckets` of the raw defaults and of each raw rule's
-      `summary_options` are `< 2^32` (Go's `uint32`).
+      (the `uint32` hypotheses about `age_buckets` are gone since the repair 2eac18a: the loader checks the effective
+      window itself).
     Nothing is assumed about the library defaults `db`, `dq`: the loader validates the effective defaults. -/
 theorem accepted_config_safe (rxOk : Bytes → Bool) (db : List V) (dq : List (V × V)) (raw : RawConfig V) (cfg : Config V)
     (ha : LoaderAssumptions raw) (h : load rxOk db dq raw = .ok cfg) : ConfigSafe cfg :=
@@ -536,9 +536,8 @@ theorem accepted_config_safe (rxOk : Bytes → Bool) (db : List V) (dq : List (V
 /-- what the loader validated, without any assumption on the number type: all bucket lists the exporter can use
     are strictly increasing, all summary option sets it can use pass `summaryOptsOk` -/
 theorem accepted_config_validated (rxOk : Bytes → Bool) (db : List V) (dq : List (V × V)) (raw : RawConfig V) (cfg : Config V)
-    (hd : raw.defaults.summaryOpts.ageBuckets < uint32Bound) (hr : ∀ r, r ∈ raw.rules → rawAgeB r < uint32Bound)
     (h : load rxOk db dq raw = .ok cfg) : ConfigValidated cfg :=
-  load_validated hd hr h
+  load_validated h
 
 /-- **Every summary a loaded configuration can create steps its buffers by at least a millisecond**: the defaults and
     every rule with summary options of its own have `max_age / age_buckets ≥ 1ms` (library defaults filled in). This is
@@ -546,11 +545,10 @@ theorem accepted_config_validated (rxOk : Bytes → Bool) (db : List V) (dq : Li
     (elapsed / stream duration iterations); between 1ns and 1ms the loop is slow to practically endless, and no loaded
     configuration gets there. -/
 theorem loaded_stream_duration_ge_1ms (rxOk : Bytes → Bool) (db : List V) (dq : List (V × V)) (raw : RawConfig V) (cfg : Config V)
-    (hd : raw.defaults.summaryOpts.ageBuckets < uint32Bound) (hr : ∀ r, r ∈ raw.rules → rawAgeB r < uint32Bound)
     (h : load rxOk db dq raw = .ok cfg) :
     minStreamDuration ≤ streamDuration cfg.dMaxAge cfg.dAgeBuckets ∧
     ∀ r, r ∈ cfg.rules → r.hasSummaryOpts = true → minStreamDuration ≤ streamDuration r.maxAge r.ageBuckets := by
-  have hv := load_validated hd hr h
+  have hv := load_validated h
   exact ⟨streamDuration_ge_of_ok hv.dSummary, fun r hr' hs => streamDuration_ge_of_ok (hv.ruleSummary r hr' hs)⟩
 
 /-- **A loaded configuration never panics.** Let `cfg` be accepted by the loader (under `LoaderAssumptions`), be
@@ -711,8 +709,9 @@ theorem now_rejects_nanosecond_stream_duration : ∃ e, load (fun _ => true) db0
   rejects_bad_default_summary_options _ _ _ rawNanosecondMaxAge (by decide)
 
 /-- `age_buckets: 10^12` with `max_age` unset: the default ten-minute window split into 10^12 buckets has a stream
-    duration of zero. The old model needed the `uint32` hypothesis of `LoaderAssumptions` to exclude it (and a
-    `uint32` as large as 4·10^9 still gave 150ns); the loader now computes the effective window itself and rejects it. -/
+    duration of zero. The old model needed a `uint32` hypothesis in `LoaderAssumptions` to exclude it (and a
+    `uint32` as large as 4·10^9 still gave 150ns); the loader now computes the effective window itself and rejects it,
+    and the hypothesis is gone. -/
 def rawHugeAgeBuckets : RawConfig Int :=
   { defaults := { observerType := some (strBytes "summary"), summaryOpts := { ageBuckets := 1000000000000 } } }
 
@@ -762,14 +761,9 @@ example : ∃ cfg, load (fun _ => true) db0 dq0 rawGood = .ok cfg ∧ ConfigSafe
       exact hobj
 
 /-- the hypotheses of (c) are satisfiable, and (c) gives the same conclusion without evaluating anything about the
-    loaded configuration: `LoaderAssumptions rawGood` holds on the toy number type (`toy_objectiveLaw`; all age
-    buckets are 0), so `accepted_config_safe` applies -/
+    loaded configuration: `LoaderAssumptions rawGood` holds on the toy number type (`toy_objectiveLaw`), so `accepted_config_safe` applies -/
 example : ∃ cfg, load (fun _ => true) db0 dq0 rawGood = .ok cfg ∧ ConfigSafe cfg := by
-  have ha : LoaderAssumptions rawGood :=
-    ⟨toy_objectiveLaw, by decide, fun r hr => by
-      have e : r = { matchStr := strBytes "a.*", name := [98], observerType := some (strBytes "histogram"),
-                     histOpts := some (some [1, 2]) } := by simpa [rawGood] using hr
-      subst e; decide⟩
+  have ha : LoaderAssumptions rawGood := ⟨toy_objectiveLaw⟩
   cases hl : load (fun _ => true) db0 dq0 rawGood with
   | error e =>
     have : (load (fun _ => true) db0 dq0 rawGood).toBool = true := by with_unfolding_all decide
@@ -786,11 +780,7 @@ private def rawTwoHelps : RawConfig Int :=
 example : ∃ cfg, load (fun _ => true) db0 dq0 rawTwoHelps = .ok cfg ∧
     ∀ ops, OpsLoaded ops → ∀ p', runOps noRx { mapper := MState.fresh cfg, reg := { metrics := [], pre := [] } } ops = some (.ok p') →
       p'.reg.gatherPanics = false ∧ p'.reg.gatherOk = true := by
-  have ha : LoaderAssumptions rawTwoHelps :=
-    ⟨toy_objectiveLaw, by decide, fun r hr => by
-      have e : r = { matchStr := [97], name := [120], help := [49] } ∨ r = { matchStr := [98], name := [120], help := [50] } := by
-        simpa [rawTwoHelps] using hr
-      rcases e with e | e <;> subst e <;> decide⟩
+  have ha : LoaderAssumptions rawTwoHelps := ⟨toy_objectiveLaw⟩
   cases hl : load (fun _ => true) db0 dq0 rawTwoHelps with
   | error e =>
     have : (load (fun _ => true) db0 dq0 rawTwoHelps).toBool = true := by with_unfolding_all decide
